@@ -62,4 +62,28 @@ def trace_module(mod, optimize, B=None):
 def handle(req):
     if req['cmd'] == 'module':
         return trace_module(shipped(req['name']), req.get('optimize', False))
+    if req['cmd'] == 'deser':
+        return do_deser(req)
     raise ValueError(req['cmd'])
+
+
+def do_deser(req):
+    """deserialize_instructions(bytes) driving a fresh tracing serializer: which calls does it make?"""
+    from proof_generation.deserialize import deserialize_instructions
+
+    class DB(Bridge):       # the deserialiser names symbol id n str(n)
+        def symnum(self, name):
+            return int(name) if name.isdigit() else super().symnum(name)
+    B = DB()
+    it, sinks = tracing.new_serializer(B, req['phase'], [B.to_py(c) for c in req.get('claims', [])])
+    it._full_always = False
+    it._log_args = False
+    out = 'ok'
+    try:
+        deserialize_instructions(bytes(req['bytes']), it)
+    except BaseException as e:     # noqa: any exception is "reported as an error"
+        out = 'raise:' + type(e).__name__
+    idx = {'gamma': 0, 'claim': 1, 'proof': 2}[req['phase']]
+    return {'out': out, 'events': it._events, 'rebytes': list(sinks[idx].getvalue()),
+            'final': {'len': len(it.stack), 'top': tracing.entry(B, it.stack[-1]) if it.stack else {'k': 'none', 'p': {'t': 'ev', 'i': 0}},
+                      'memory': [tracing.entry(B, x) for x in it.memory], 'claims': [B.to_json(c.pattern) for c in it.claims]}}
